@@ -283,6 +283,50 @@ def sampled_case(rng, family):
     return dict(names=ins, anc=anc, mode=rng.choice(["ctor", "from_dict"]), family=family, density=density)
 
 
+def many_paths_case(rng, kind):
+    """Valid DAGs in which some pair of variables is joined by a large number of distinct directed paths (a multiple of 256,
+    of 65 536, or just a big number): a diamond ladder (2^k paths through k stacked diamonds), a complete DAG (every variable
+    defined from all earlier ones: 2^(n-2) paths first -> last) and fully connected layers (w^(L-1) paths)."""
+    anc = {}
+    if kind == "diamond-ladder":
+        k = rng.choice([8, 9, 16, 17])
+        names = [f"v{i}" for i in range(3 * k + 1)]
+        rng.shuffle(names)
+        top = names[0]
+        anc[top] = []
+        idx = 1
+        for _ in range(k):
+            l, r, bot = names[idx], names[idx + 1], names[idx + 2]
+            idx += 3
+            anc[l], anc[r], anc[bot] = [top], [top], [l, r]
+            top = bot
+    elif kind == "complete-dag":
+        n = rng.choice([10, 11, 13, 18])
+        names = [f"c{i}" for i in range(n)]
+        rng.shuffle(names)
+        for j, x in enumerate(names):
+            anc[x] = list(names[:j])
+    elif kind == "layers":
+        w, depth = rng.choice([(16, 2), (4, 4), (2, 8), (4, 8)])
+        root, sink = "root_", "sink_"
+        layers = [[f"l{d}_{i}" for i in range(w)] for d in range(depth)]
+        names = [root, sink] + [x for lay in layers for x in lay]
+        anc[root] = []
+        prev = [root]
+        for lay in layers:
+            for x in lay:
+                anc[x] = list(prev)
+            prev = lay
+        anc[sink] = list(prev)
+    else:
+        raise ValueError(kind)
+    for n in anc:
+        rng.shuffle(anc[n])
+    ins = list(names)
+    rng.shuffle(ins)
+    return dict(names=ins, anc=anc, mode=rng.choice(["ctor", "from_dict"]), family="many-paths:" + kind)
+
+
 FAMILIES = ["dag", "dag", "cycle-unreachable-from-roots", "cycle-downstream", "diamond-late-root", "isolated", "unknown-ref",
             "self-loop", "random-digraph", "reverse-chain"]
 
@@ -366,6 +410,9 @@ def all_cases(run: Run, graphs):
     for i in range(12000 if thorough else 2000):
         cases.append(sampled_case(rng, FAMILIES[i % len(FAMILIES)]))
     add(shipped_cases(run.rng("shipped"), graphs or [], thorough), "shipped")
+    rng = run.rng("many-paths")
+    for i in range(36 if thorough else 12):
+        cases.append(many_paths_case(rng, ["diamond-ladder", "complete-dag", "layers"][i % 3]))
     # metamorphic twins: same definitions, other insertion orders (results must be identical)
     rng = run.rng("twins")
     n_base = len(cases)
